@@ -443,7 +443,9 @@ def add_custom_columns(rng: random.Random, form: dict, hostile: bool = False) ->
         settings["namespaces"] = 'esri="http://esri.com/xforms" ex="http://example.com/x"'
         if qrows and rng.random() < 0.8:
             r = rng.choice(qrows)
-            col = rng.choice(["bind::esri:fieldType", "bind::ex:y", "instance::ex:tag", "body::esri:style"])
+            # ... including names whose local part is the name of an attribute pyxform writes itself (type, nodeset, ref, id)
+            col = rng.choice(["bind::esri:fieldType", "bind::ex:y", "instance::ex:tag", "body::esri:style", "bind::ex:type", "bind::esri:nodeset", "body::ex:ref", "instance::ex:id",
+                              "bind::ex:required"])
             r[col] = adversarial_text(rng)
             info["custom"].append(col)
     if rng.random() < 0.4:
